@@ -1602,11 +1602,13 @@ func (x *exec) batchGroup(o core.Op) {
 	env.Eff()
 	errs := make([]error, n)
 	calls := make([]int, n)
-	done := 0
+	// the callers are plain goroutines and run in parallel (dbsim has no
+	// scheduler of its own): the completion count is atomic
+	var done atomic.Int32
 	for i := 0; i < int(n); i++ {
 		i := i
 		go func() {
-			defer func() { done++ }()
+			defer done.Add(1)
 			time.Sleep(time.Duration(i) * time.Millisecond)
 			errs[i] = walletdb.Batch(x.db.Inner, func(tx walletdb.ReadWriteTx) error {
 				calls[i]++
@@ -1630,11 +1632,11 @@ func (x *exec) batchGroup(o core.Op) {
 			})
 		}()
 	}
-	for w := 0; done < int(n) && w < 10000; w++ {
+	for w := 0; int(done.Load()) < int(n) && w < 10000; w++ {
 		time.Sleep(time.Millisecond)
 	}
-	if done < int(n) {
-		x.fail("batch-group:caller-never-returned", "%d of %d concurrent Batch callers did not return within 10 simulated seconds", int(n)-done, n)
+	if d := int(done.Load()); d < int(n) {
+		x.fail("batch-group:caller-never-returned", "%d of %d concurrent Batch callers did not return within 10 simulated seconds", int(n)-d, n)
 		return
 	}
 	failing := 0
